@@ -126,6 +126,9 @@ type config struct {
 	// Twice: the same Request object is sent a second time (response of the first send not closed):
 	// both sends must give the same request
 	Twice bool `json:"same_request_sent_twice,omitempty"`
+	// FormInterleave: the Add calls of the form fields are issued round-robin over the keys
+	// (k=a, other=x, k=b, …) instead of key by key: repeated keys with other keys in between
+	FormInterleave bool `json:"form_add_calls_interleaved,omitempty"`
 }
 
 type jarPre struct {
@@ -670,6 +673,21 @@ func genConfig(r *gen.Rand) *config {
 	if cf.Style == 0 && cf.Body != bFiles && r.Chance(1, 6) {
 		cf.Twice = true
 	}
+	if cf.Style == 0 && (cf.Body == bFiles || cf.Body == bForm) && len(cf.Form) >= 2 && r.Bool() {
+		cf.FormInterleave = true
+		// make sure there is something to interleave: the first two keys are added value by value
+		for i := 0; i < 2; i++ {
+			if len(cf.Form[i].Seq) == 0 {
+				cf.Form[i].Mode = 0
+				if len(cf.Form[i].Vs) == 1 {
+					v := genVal(r, vQuery, true)
+					v.S = strings.NewReplacer("\r", "_", "\n", "_").Replace(v.S)
+					cf.Form[i].Vs = append(cf.Form[i].Vs, v.S)
+					cf.Form[i].Cls = append(cf.Form[i].Cls, v.Class)
+				}
+			}
+		}
+	}
 	return cf
 }
 
@@ -927,7 +945,32 @@ func (b *builder) send(cf *config) sendResult {
 		case bCBOR:
 			req.SetCBOR(cf.Doc)
 		case bForm, bFiles:
-			applyMultis(cf.Form, fnAPI{
+			form := cf.Form
+			if cf.FormInterleave {
+				var rest []multi
+				var rr []multi
+				for _, m := range form {
+					if m.Mode == 0 && len(m.Seq) == 0 {
+						rr = append(rr, m)
+					} else {
+						rest = append(rest, m)
+					}
+				}
+				for j := 0; ; j++ {
+					any := false
+					for _, m := range rr {
+						if j < len(m.Vs) {
+							req.AddFormData(m.K, m.Vs[j])
+							any = true
+						}
+					}
+					if !any {
+						break
+					}
+				}
+				form = rest
+			}
+			applyMultis(form, fnAPI{
 				func(k, v string) { req.AddFormData(k, v) }, func(k, v string) { req.SetFormData(k, v) },
 				func(m map[string][]string) { req.AddFormDataWithMap(m) }, func(m map[string]string) { req.SetFormDataWithMap(m) }})
 			for _, f := range cf.Files {
